@@ -293,6 +293,10 @@ def run_model(prop, imports, exprs, shard=400, timeout=900, prelude=""):
     exprs: list of Coq terms (strings)."""
     if not exprs:
         return []
+    # the compiled files the case files import are brought up to date first (they may belong to another property's development)
+    ok, out = coq_make([i.replace(".", "/") + ".vo" for i in imports])
+    if not ok:
+        raise ModelError("the model files %s do not build:\n%s" % (imports, out[-1500:]))
     rundir = os.path.join(BUILD, "run", prop)
     os.makedirs(rundir, exist_ok=True)
     shards = [exprs[i:i + shard] for i in range(0, len(exprs), shard)]
